@@ -14,9 +14,11 @@ Section PathReplay.
   Notation ctx := (ctx Tok MS BS Err).
   Notation res := (res Tok MS BS Err).
 
-  (* what a successful match tells about the token it returns *)
+  (* an invariant of the matcher state, and what a successful match from such a state tells about the token *)
+  Variable MI : MS -> Prop.
+  Hypothesis HI : forall k m t, MI m -> match matchf P k m t with MR _ _ m' | MRaise _ _ m' => MI m' end.
   Variable tokP : kind -> Tok -> Prop.
-  Hypothesis Hmatch : forall k m t t' m', matchf P k m t = MR true t' m' -> tokP k t'.
+  Hypothesis Hmatch : forall k m t t' m', MI m -> matchf P k m t = MR true t' m' -> tokP k t'.
   Definition mtok' (r : mres Tok MS Err) : Tok := match r with MR _ t _ | MRaise _ t _ => t end.
   Hypothesis Heof : forall k m t, is_eof P (mtok' (matchf P k m t)) = is_eof P t.
 
@@ -48,12 +50,13 @@ Section PathReplay.
   Definition ends (s : nat) : Prop :=
     exists x y, In x (table P) /\ In y (s_tests x) /\ t_kind y = KEOF /\ t_tgt y = s.
 
-  (* frame: the builder state is untouched and a non-empty error list stays non-empty *)
-  Definition fb (c0 c : ctx) : Prop := bs c = bs c0 /\ log c = log c0 /\ (errs c0 <> [] -> errs c <> []).
+  (* frame: builder state and log untouched, a non-empty error list stays non-empty, the matcher invariant is kept *)
+  Definition fb (c0 c : ctx) : Prop :=
+    bs c = bs c0 /\ log c = log c0 /\ (errs c0 <> [] -> errs c <> []) /\ (MI (ms c0) -> MI (ms c)).
   Lemma fb_refl c : fb c c. Proof. repeat split; auto. Qed.
-  Lemma fb_same c0 c c' : fb c0 c -> bs c' = bs c -> log c' = log c -> errs c' = errs c -> fb c0 c'.
-  Proof. intros (H1 & H2 & H3) B L E. split; [congruence | split; [congruence | rewrite E; auto]]. Qed.
-  Ltac fbs := cbv beta in *; match goal with H : fb _ _ |- fb _ _ => solve [eapply fb_same; [exact H | reflexivity | reflexivity | reflexivity]] end.
+  Lemma fb_same c0 c c' : fb c0 c -> bs c' = bs c -> log c' = log c -> errs c' = errs c -> ms c' = ms c -> fb c0 c'.
+  Proof. intros (H1 & H2 & H3 & H4) B L E M. split; [congruence | split; [congruence | split; [rewrite E; auto | rewrite M; auto]]]. Qed.
+  Ltac fbs := cbv beta in *; match goal with H : fb _ _ |- fb _ _ => solve [eapply fb_same; [exact H | reflexivity | reflexivity | reflexivity | reflexivity]] end.
 
   Lemma add_error_fb c0 e c : fb c0 c ->
     sat (add_error P e c) (fun _ c' => fb c0 c' /\ errs c' <> []) (fun _ => True) True.
@@ -61,7 +64,7 @@ Section PathReplay.
     intros H. unfold add_error. destruct (existsb _ _) eqn:E; simpl.
     - split; [exact H | eapply existsb_nonempty; eauto].
     - assert (N : errs c ++ [e] <> []) by (destruct (errs c); discriminate).
-      assert (G : fb c0 (set_errs (errs c ++ [e]) c)) by (destruct H as (H1 & H2 & H3); split; [|split]; simpl; auto).
+      assert (G : fb c0 (set_errs (errs c ++ [e]) c)) by (destruct H as (H1 & H2 & H3 & H4); split; [|split; [|split]]; simpl; auto).
       destruct (_ <? _); simpl; auto.
   Qed.
 
@@ -71,7 +74,7 @@ Section PathReplay.
   Lemma match_k_fb c0 stop k t c : fb c0 c ->
     sat (match_k P stop k t c)
         (fun r c' => fb c0 c' /\ is_eof P (snd r) = is_eof P t
-                     /\ (fst r = true -> tokP k (snd r) /\ (is_eof P t = true -> k = KEOF)))
+                     /\ (fst r = true -> (is_eof P t = true -> k = KEOF) /\ (MI (ms c0) -> tokP k (snd r))))
         (fun _ => True) True.
   Proof.
     intros H. unfold match_k.
@@ -79,11 +82,12 @@ Section PathReplay.
     { split; [exact H | split; [reflexivity | intros X; discriminate X]]. }
     assert (K : is_eof P t = true -> k = KEOF).
     { intros E. rewrite E, andb_true_r in G. apply negb_false_iff in G. now apply kind_beq_eq. }
-    pose proof (Heof k (ms c) t) as He. pose proof (Hmatch k (ms c) t) as Hm.
+    pose proof (Heof k (ms c) t) as He. pose proof (Hmatch k (ms c) t) as Hm. pose proof (HI k (ms c) t) as Hi.
+    destruct H as (H1 & H2 & H3 & H4).
     destruct (matchf P k (ms c) t) as [b t' m'|e t' m']; simpl in *.
-    - split; [fbs | split; [exact He|]]. intros ->. split; [eapply Hm; reflexivity | exact K].
+    - split; [repeat split; auto|]. split; [exact He|]. intros ->. split; [exact K | intros I0; eapply Hm; auto].
     - destruct stop; simpl; auto.
-      eapply sat_bind; [apply (add_error_fb c0); fbs|].
+      eapply sat_bind; [apply (add_error_fb c0); repeat split; simpl; auto|].
       intros [] c' [G' _]. simpl. split; [exact G' | split; [exact He | intros X; discriminate X]].
   Qed.
 
@@ -117,30 +121,32 @@ Section PathReplay.
   (* one builder call: either it returned normally, or an error has been recorded *)
   Lemma b_call_replay stop f c :
     sat (b_call P stop f c)
-        (fun _ c' => (errs c' <> [] \/ f (bs c) = BOk (bs c')) /\ log c' = log c /\ (errs c <> [] -> errs c' <> []))
+        (fun _ c' => (errs c' <> [] \/ f (bs c) = BOk (bs c')) /\ log c' = log c /\ (errs c <> [] -> errs c' <> []) /\ ms c' = ms c)
         (fun _ => True) True.
   Proof.
     unfold b_call. destruct (f (bs c)) as [b'|e b'|]; simpl; [split; [now right | auto] | | exact I].
     destruct stop; simpl; [exact I|].
-    eapply sat_weaken; [apply (add_error_fb (set_bs b' c) e (set_bs b' c)); apply fb_refl | | auto | auto].
-    intros _ c' [(_ & L & M) N]. simpl in M, L. split; [now left | auto].
+    unfold add_error. destruct (existsb _ _) eqn:E; simpl.
+    - split; [left; eapply existsb_nonempty; eauto | auto].
+    - assert (N : errs c ++ [e] <> []) by (destruct (errs c); discriminate).
+      destruct (_ <? _); simpl; auto.
   Qed.
 
   Lemma exec_replay stop t k : forall ps c,
     sat (exec P stop t k ps c)
         (fun _ c' => (errs c' <> [] \/ bops t ps (bs c) = Some (bs c'))
-                     /\ log c' = rev (map (ev_of_prod t k) ps) ++ log c /\ (errs c <> [] -> errs c' <> []))
+                     /\ log c' = rev (map (ev_of_prod t k) ps) ++ log c /\ (errs c <> [] -> errs c' <> []) /\ ms c' = ms c)
         (fun _ => True) True.
   Proof.
     induction ps as [|p ps IH]; intros c; simpl; [split; [now right | auto]|].
     eapply sat_bind with (Q1 := fun _ c' => (errs c' <> [] \/ bop t p (bs c) = Some (bs c'))
-                                            /\ log c' = ev_of_prod t k p :: log c /\ (errs c <> [] -> errs c' <> [])).
+                                            /\ log c' = ev_of_prod t k p :: log c /\ (errs c <> [] -> errs c' <> []) /\ ms c' = ms c).
     - unfold bop. destruct p; simpl;
-        (eapply sat_weaken; [eapply b_call_replay | | auto | auto]; simpl; intros _ c' ([H|H] & L & M); (split; [|split; [exact L | exact M]]);
+        (eapply sat_weaken; [eapply b_call_replay | | auto | auto]; simpl; intros _ c' ([H|H] & L & M & Ms); (split; [|split; [exact L | split; [exact M | exact Ms]]]);
          [now left | right; rewrite H; reflexivity]).
-    - intros _ c' (H1 & L1 & H2).
+    - intros _ c' (H1 & L1 & H2 & M1).
       eapply sat_weaken; [apply IH | | auto | auto]. simpl.
-      intros _ c'' (H3 & L3 & H4). split; [|split; [|auto]].
+      intros _ c'' (H3 & L3 & H4 & M3). split; [|split; [|split; [auto | congruence]]].
       + destruct H1 as [H1|H1]; [left; auto|]. destruct H3 as [H3|H3]; [now left|]. right. rewrite H1. exact H3.
       + rewrite L3, L1, <- app_assoc. reflexivity.
   Qed.
@@ -149,10 +155,10 @@ Section PathReplay.
     Variable b1 : BS.
     Variable log0 : list (ev Tok).
     Definition InvR (s : nat) (c : ctx) : Prop :=
-      errs c <> [] \/ exists l, reach b1 s (bs c) l /\ log c = rev (path_events l) ++ log0.
+      errs c <> [] \/ (MI (ms c) /\ exists l, reach b1 s (bs c) l /\ log c = rev (path_events l) ++ log0).
 
     Lemma InvR_fb s c c' : fb c c' -> InvR s c -> InvR s c'.
-    Proof. intros (B & L & M) [H|(l & R & Hl)]; [left; auto | right; exists l; rewrite B, L; auto]. Qed.
+    Proof. intros (B & L & M & Im) [H|(Ic & l & R & Hl)]; [left; auto | right; split; [auto|]; exists l; rewrite B, L; auto]. Qed.
 
     Lemma run_tests_reach stop x c0 e : In x (table P) -> InvR (s_id x) c0 ->
       forall tests t c, incl tests (s_tests x) -> fb c0 c -> is_eof P t = e ->
@@ -163,7 +169,7 @@ Section PathReplay.
                        end /\ (errs c0 <> [] -> errs c' <> []))
           (fun _ => True) True.
     Proof.
-      intros Hx HI.
+      intros Hx HI0.
       induction tests as [|y ys IH]; intros t c Hincl Hfb He; simpl.
       { split; [exact Hfb | apply Hfb]. }
       assert (Hy : In y (s_tests x)) by (apply Hincl; now left).
@@ -177,15 +183,16 @@ Section PathReplay.
                          | None => fb c0 c'
                          end /\ (errs c0 <> [] -> errs c' <> []))
             (fun _ => True) True).
-      { intros Hb c2 Hfb2. destruct (Hk Hb) as [Ht Hke].
-        eapply sat_bind; [apply exec_replay|]. intros _ c3 (Hr & Hl & Hm). simpl.
+      { intros Hb c2 Hfb2.
+        eapply sat_bind; [apply exec_replay|]. intros _ c3 (Hr & Hl & Hm & Hms). simpl.
         split; [split|].
         - destruct Hr as [Hr|Hr]; [now left|].
-          destruct HI as [HI|(l & HR & HL)]; [left; apply Hm, Hfb2, HI|].
-          right. destruct Hfb2 as (B2 & L2 & _). rewrite B2 in Hr. exists (l ++ [(t1, y)]). split.
+          destruct HI0 as [HI0|(Ic0 & l & HR & HL)]; [left; apply Hm, Hfb2, HI0|].
+          destruct (Hk Hb) as [Hke Ht]. specialize (Ht Ic0).
+          right. destruct Hfb2 as (B2 & L2 & _ & Im2). rewrite B2 in Hr. split; [rewrite Hms; auto|]. exists (l ++ [(t1, y)]). split.
           + eapply reach_step; eauto.
           + rewrite Hl, L2, HL, path_events_snoc, rev_app_distr, <- app_assoc. reflexivity.
-        - intros Et. subst e. exists x, y. repeat split; auto.
+        - intros Et. subst e. exists x, y. repeat split; auto. apply (Hk Hb). exact Et.
         - intros N. apply Hm. apply Hfb2. exact N. }
       destruct b.
       - destruct (t_guard y) as [h|].
@@ -206,7 +213,7 @@ Section PathReplay.
                         /\ (errs c <> [] -> errs c' <> []))
           (fun _ => True) True.
     Proof.
-      intros HI. unfold match_token.
+      intros HI0. unfold match_token.
       destruct (find_state P s) as [x|] eqn:F; [|exact I].
       destruct (find_state_in' _ _ F) as [Hx Hid]. subst s.
       eapply sat_bind.
@@ -226,10 +233,10 @@ Section PathReplay.
           (fun s' c' => InvR s' c' /\ (ends s' \/ errs c' <> []) /\ (errs c <> [] -> errs c' <> []))
           (fun _ => True) True.
     Proof.
-      induction fuel as [|f IH]; intros s c HI; simpl; [exact I|].
+      induction fuel as [|f IH]; intros s c HI0; simpl; [exact I|].
       pose proof (read_fb c c (fb_refl c)) as R. destruct (read P c) as [t c1]. simpl in R.
       assert (HI1 : InvR s c1) by (eapply InvR_fb; eauto).
-      destruct R as (_ & _ & R).
+      destruct R as (_ & _ & R & _).
       eapply sat_bind; [apply match_token_reach; eauto|].
       intros s' c2 (I2 & E2 & M2). simpl.
       destruct (is_eof P t) eqn:Et.
@@ -240,18 +247,18 @@ Section PathReplay.
 
   (* a normal return: the start of the document, a path to the target of an #EOF test, the end of the document;
      the interpreter's event log is exactly the events of that path *)
-  Theorem path_replay stop toks m b c : parse P stop toks m b = Ok tt c ->
+  Theorem path_replay stop toks m b c : MI m -> parse P stop toks m b = Ok tt c ->
     exists b1 s b2 l, b_start P RGherkinDocument b = BOk b1 /\ reach b1 s b2 l /\ ends s
                       /\ b_end P RGherkinDocument b2 = BOk (bs c)
                       /\ events c = EvS RGherkinDocument :: path_events l ++ [EvE RGherkinDocument].
   Proof.
-    unfold parse. intros H.
+    unfold parse. intros Im H.
     set (c0 := emit (EvS RGherkinDocument) (init_ctx toks m b)) in *.
     pose proof (b_call_replay stop (b_start P RGherkinDocument) c0) as S1.
     destruct (b_call P stop (b_start P RGherkinDocument) c0) as [[] c1| | | |]; cbn [bind] in H; try discriminate.
-    simpl in S1. destruct S1 as (S1 & L1 & _).
+    simpl in S1. destruct S1 as (S1 & L1 & _ & Ms1).
     assert (I1 : InvR (bs c1) [EvS RGherkinDocument] (start_state P) c1).
-    { destruct S1 as [S1|S1]; [now left | right; exists []; split; [constructor | exact L1]]. }
+    { destruct S1 as [S1|S1]; [now left | right; split; [rewrite Ms1; exact Im|]; exists []; split; [constructor | exact L1]]. }
     pose proof (loop_reach (bs c1) [EvS RGherkinDocument] stop (S (S (length toks))) _ _ I1) as L.
     destruct (loop P (S (S (length toks))) stop (start_state P) c1) as [s' c2| | | |]; cbn [bind] in H; try discriminate.
     simpl in L. destruct L as (I2 & Hfin & M2).
@@ -259,13 +266,13 @@ Section PathReplay.
     pose proof (b_call_replay stop (b_end P RGherkinDocument) c2') as S3.
     destruct (b_call P stop (b_end P RGherkinDocument) c2') as [[] c3| | | |]; cbn [bind] in H; try discriminate.
     simpl in S3. destruct (errs c3) eqn:Ee; [|discriminate]. inversion H; subst c3. clear H.
-    destruct S3 as (S3 & L3 & M3).
+    destruct S3 as (S3 & L3 & M3 & _).
     assert (N2 : errs c2 = []).
     { destruct (errs c2) eqn:E2; auto. exfalso. apply M3; [discriminate | reflexivity]. }
     assert (N1 : errs c1 = []).
     { destruct (errs c1) eqn:E1; auto. exfalso. rewrite N2 in M2. apply M2; [discriminate | reflexivity]. }
     destruct S1 as [S1|S1]; [rewrite N1 in S1; congruence|].
-    destruct I2 as [I2|(l & I2 & Hl)]; [congruence|].
+    destruct I2 as [I2|(_ & l & I2 & Hl)]; [congruence|].
     destruct Hfin as [Hfin|Hfin]; [|congruence].
     destruct S3 as [S3|S3]; [congruence|].
     exists (bs c1), s', (bs c2), l. repeat split; auto.
